@@ -199,6 +199,7 @@ def fam_misc(tier):
     env.maxlen = 4 if tier == 'quick' else 5
     env.extra = [b'a b c', b'ab #x# b', b'a #', b'((a))', b'(a', b'abcc ab', b'ab # ab', b'a b  c a', b'#a# a']
     env.family = 'misc'
+    env.audit = True
     leaves = [
         ('node', True, I('aB')),
         ('node', True, seq('off', I('éx'), 'any')),
